@@ -279,6 +279,16 @@ func rigSchedules(variant string) []rigSchedule {
 			}
 		}
 	}
+	// G. an upgrade/store to a line with two sharers while one sharer's snoop coroutine is busy
+	// with the write-back of another line (3 cores, 2 lines; repeated: the command order is a map order)
+	for _, k := range kinds {
+		for d := 0; d <= 12; d += 2 {
+			for rep := 0; rep < 4; rep++ {
+				evs := []rigEvent{{0, 1, "R", 64}, {1, 2, "R", 64}, {400, 2, "W", 192}, {800, 1, "R", 196}, {802 + d, 0, k, 68}, {1600 + rep, 1, "R", 64}}
+				out = append(out, rigSchedule{Variant: variant, Cores: 3, Events: evs})
+			}
+		}
+	}
 	return out
 }
 
